@@ -2,6 +2,8 @@ pub mod eng;
 pub mod adminprops;
 pub mod c19;
 pub mod engprops;
+pub mod roles;
+pub mod twin;
 pub mod vammprops;
 
 use crate::evidence::Tier;
@@ -23,6 +25,8 @@ pub fn run(prop: &str, tier: Tier) -> i32 {
         "C17" => engprops::run_c17(tier),
         "C01" => vammprops::run_c01(tier),
         "C19" => c19::run_c19(tier),
+        "C09" => roles::run_c09(tier),
+        "C13" => twin::run_c13(tier),
         "C14" => adminprops::run_c14(tier),
         "C20" => adminprops::run_c20(tier),
         "C18" => vammprops::run_c18(tier),
@@ -45,7 +49,11 @@ pub fn replay(path: &str) -> i32 {
         return c19::run_c19(Tier::Quick);
     }
     let is_v = matches!(prop, "C01" | "C18") || (prop == "C17" && v["params"]["amounts"].is_array());
-    let viols = if is_v {
+    let viols = if prop == "C09" {
+        roles::replay_roles(&v["params"], &v["actions"])
+    } else if prop == "C13" {
+        twin::replay_twin(&v["params"], &v["actions"])
+    } else if is_v {
         vammprops::replay_v(prop, &v["params"], &v["actions"])
     } else if engprops::oracle_for(prop).is_some() {
         engprops::replay_eng(prop, &v["params"], &v["actions"])
